@@ -509,6 +509,33 @@ fn run_case(ctx: &mut Ctx, id: u64) {
     if r.chance(1, 6) {
         ops.push(Op::MakeReadOnly);
         ops.push(Op::Reopen);
+    } else if r.chance(1, 5) && ops.len() > 4 {
+        // read-only in mid-history: later clears still log entries (appends are refused)
+        let pos = ops.len() / 2;
+        ops.insert(pos, Op::MakeReadOnly);
+        let mut len = 0u64;
+        let mut ro = false;
+        ops.retain(|o| match o {
+            Op::MakeReadOnly => {
+                ro = true;
+                true
+            }
+            Op::Append(..) => {
+                if !ro {
+                    len += 1;
+                }
+                true
+            }
+            Op::Batch(b) => {
+                if !ro {
+                    len += b.len() as u64;
+                }
+                true
+            }
+            Op::Clear(s, _) => *s < len,
+            _ => true,
+        });
+        ctx.count("histories_with_make_read_only_in_the_middle");
     }
     ctx.count("random_histories");
     let ks = r.next_u64();
